@@ -1,0 +1,72 @@
+//go:build verif
+
+// Verification hooks for the FmtVSIX format unit (add-only, compiled only with -tags verif). They expose
+// unexported helpers of the VSIX signer to the out-of-tree correspondence harness in /verif; no existing
+// behaviour is changed.
+package vsix
+
+import (
+	"archive/zip"
+	"crypto/x509"
+
+	"github.com/beevik/etree"
+)
+
+// VerifKeepFile is keepFile: does signing keep (and digest) a package member of this name?
+func VerifKeepFile(name string) bool { return keepFile(name) }
+
+// VerifRelPath is relPath: the name of the relationships part of a part ("" = the package root).
+func VerifRelPath(fp string) string { return relPath(fp) }
+
+// VerifCalcFileName is calcFileName: the base name of the signature / certificate part of a certificate.
+func VerifCalcFileName(cert *x509.Certificate) string { return calcFileName(cert) }
+
+// VerifRelsMarshal appends one relationship per (zipPath, relType) pair to an empty relationships
+// document (oxfRelationships.Append) and marshals it.
+func VerifRelsMarshal(pairs [][2]string) ([]byte, error) {
+	var rels oxfRelationships
+	for _, p := range pairs {
+		rels.Append(p[0], p[1])
+	}
+	return rels.Marshal()
+}
+
+func verifFiles(zr *zip.Reader) zipFiles {
+	files := make(zipFiles, len(zr.File))
+	for _, f := range zr.File {
+		files[f.Name] = f
+	}
+	return files
+}
+
+// VerifParseRels runs parseRels on a member of the archive and returns the (Target, Id, Type) triples
+// in document order together with what Find(rType) answers.
+func VerifParseRels(zr *zip.Reader, path, rType string) (rels [][3]string, found string, err error) {
+	r, err := parseRels(verifFiles(zr), path)
+	if err != nil {
+		return nil, "", err
+	}
+	for _, rel := range r.Relationship {
+		rels = append(rels, [3]string{rel.Target, rel.Id, rel.Type})
+	}
+	return rels, r.Find(rType), nil
+}
+
+// VerifReadSignature is readSignature: the signature part and the detached certificates the verifier finds.
+func VerifReadSignature(zr *zip.Reader) ([]byte, []*x509.Certificate, error) {
+	return readSignature(verifFiles(zr))
+}
+
+// VerifCheckManifest is checkManifest: the package object of a signature checked against the archive.
+func VerifCheckManifest(zr *zip.Reader, object *etree.Element) error {
+	return checkManifest(verifFiles(zr), object)
+}
+
+// VerifContentTypeTable returns the signer's own extension -> content type table.
+func VerifContentTypeTable() map[string]string {
+	out := make(map[string]string, len(contentTypes))
+	for k, v := range contentTypes {
+		out[k] = v
+	}
+	return out
+}
